@@ -323,6 +323,30 @@ pub fn dump_cfg(cfg: &Cfg, universe: &[u16]) -> Value {
     }
     let mut mapped: Vec<u16> = cfg.mapped_keys.iter().map(|o| o.as_u16()).collect();
     mapped.sort();
+    // defchordsv2 table (ChordsV2.tla): every chord once (the per-key map lists a chord under each of its keys),
+    // ordered by its (sorted, unique per chord) key list
+    let mut chv2: Vec<(Vec<u16>, Value)> = vec![];
+    if let Some(cv2) = l.chords_v2.as_ref() {
+        let mut seen: Vec<usize> = vec![];
+        for cfk in cv2.chords().mapping.values() {
+            for ch in cfk.chords.iter() {
+                let addr = *ch as *const _ as usize;
+                if seen.contains(&addr) {
+                    continue;
+                }
+                seen.push(addr);
+                let a: &'static KanataAction = unsafe { std::mem::transmute(ch.action) };
+                chv2.push((
+                    ch.participating_keys.to_vec(),
+                    json!({"ks": ch.participating_keys, "ac": d.act(a), "T": ch.pending_duration,
+                           "dis": ch.disabled_layers,
+                           "first": matches!(ch.release_behaviour, kanata_keyberon::chord::ReleaseBehaviour::OnFirstRelease)}),
+                ));
+            }
+        }
+        chv2.sort_by(|a, b| a.0.cmp(&b.0));
+    }
+    let chv2: Vec<Value> = chv2.into_iter().map(|x| x.1).collect();
     json!({
         "acts": d.acts,
         "layers": layers,
@@ -334,6 +358,7 @@ pub fn dump_cfg(cfg: &Cfg, universe: &[u16]) -> Value {
         "mapped_keys": mapped,
         "switch_max_key_timing": cfg.switch_max_key_timing,
         "has_chords_v2": l.chords_v2.is_some(),
+        "chv2": chv2,
         "has_zippy": cfg.zippy.is_some(),
         "opts": {
             "trans_v2": o.trans_resolution_behavior_v2,
